@@ -218,6 +218,11 @@ class SeqSuite(Suite):
                         inplace[nframes] = k
                     if not fits:
                         state = sz + ex + 1
+                if not drop and rng.random() < 0.07 and pol != "static":
+                    # this request's operator new (if the policy calls it) throws bad_alloc; the generator cannot know
+                    # whether a frame results, so it is used as the last request of the case
+                    lines.append(("cfail %d %d" % (k, kind)) if coro else ("afail %d %d" % (k, sz)))
+                    break
                 if coro and drop and rng.random() < 0.5:
                     # started with a promise that cannot be claimed (default constructed / moved-from / already resolved)
                     lines.append("cstart %d %d %d" % (k, kind, rng.randint(0, 2)))
@@ -290,7 +295,9 @@ class SeqSuite(Suite):
                     fallback += 1
         return {"policies": pol, "ops": ops, "raw_frames": raw, "coroutine_frames": coro, "frames_without_heap_call": reuse,
                 "growths": growth, "first_or_fallback_allocations": fallback, "extra_objects": extra,
-                "static_storage_assert_rejections": asserts, "moves_with_a_live_frame": moves_live}
+                "static_storage_assert_rejections": asserts, "moves_with_a_live_frame": moves_live,
+                "requests_with_failing_operator_new": sum(1 for c in cases for l in outs.get(str(c["id"]), [])
+                                                          if l.startswith(("afail", "cfail")))}
 
     def oracle(self, case, out):
         """the statement of C19 evaluated on the implementation's trace"""
@@ -405,6 +412,17 @@ class SeqSuite(Suite):
                     exs = [x for x in head if x.startswith("ex=")]
                     if not exs or exs[0] != "ex=+0-1@%d:ok" % fsz.get(fid, -1):
                         msgs.append("extra: the extra object was not destroyed exactly once with the frame (%s)" % (exs[:1] or "nothing"))
+            elif kind in ("afail", "cfail"):
+                # operator new threw bad_alloc inside the request: no frame; what the storage released on the way must
+                # have been its own, unused block (hv.events), and nothing it keeps may be stale (checked by what follows:
+                # a later frame in a released block, a second delete, a leak)
+                if field(head, "thrown") != "1":
+                    msgs.append("routing: bad_alloc thrown inside the storage did not reach the caller")
+                hv.events(evs)
+                if any(e.startswith("del") for e in evs):
+                    maxneed = -1
+                    if shared is None:
+                        max_shared = -1
             elif kind in ("athrow", "cthrow"):
                 # the extra object's factory threw: nothing may remain — no object (ctor/dtor balance), and the memory
                 # handed out by the inner policy is back (a leaked block shows at `end`, a stuck _busy at the next frame)
@@ -485,7 +503,7 @@ class SchedSuite(Suite):
                 t = rng.randrange(nt)
                 r = rng.random()
                 if pending[t] > 0 and r < 0.85:
-                    lines.append("%d go" % t)
+                    lines.append("%d %s" % (t, "fail" if rng.random() < 0.12 else "go"))
                     pending[t] -= 1
                     continue
                 cand = [f for f in maybe_live if pending[owner[f]] == 0 or rng.random() < 0.15]
@@ -532,7 +550,8 @@ class SchedSuite(Suite):
         return mx >= 2 or paused_del
 
     def stats(self, cases, outs):
-        st = {"threads": {}, "steps": 0, "growth_windows": 0, "steps_of_other_threads_inside_a_growth_window": 0,
+        st = {"threads": {}, "steps": 0, "growth_windows": 0, "failed_allocations": 0,
+              "steps_of_other_threads_inside_a_growth_window": 0,
               "frames": 0, "max_live_frames": 0, "skips": 0}
         for c in cases:
             nt = c["lines"][0].split()[3]
@@ -549,6 +568,8 @@ class SchedSuite(Suite):
                     st["steps_of_other_threads_inside_a_growth_window"] += 1
                 elif window is not None and h and h[0] == window:
                     window = None
+                if " failed f" in l:
+                    st["failed_allocations"] += 1
                 if " done f" in l:
                     st["frames"] += 1
                     live += 1
@@ -579,6 +600,8 @@ class SchedSuite(Suite):
                 fid = head[head.index("done") + 1][1:]
                 hv.events(evs)
                 hv.place(fid, field(head, "at"), sizes.get(fid, 0), "OVERLAP" in head)
+            elif "failed" in head:
+                hv.events(evs)
             elif "freed" in head:
                 fid = head[head.index("freed") + 1][1:]
                 if field(head, "cn") == "bad":
